@@ -17,7 +17,7 @@ from lib.kvlib import *
 PROP = "C07"
 MANIFEST = dict(
     level="model_checking", design_ref="DESIGN.md 8 (C07), 7 (Commands), Appendix A.3",
-    technique="TLA+ model of the triple-buffer command channel at atomic-access granularity (TLC, all interleavings) + two-thread stress recording validated by TLC against the same interval monitor + TLC-enumerated write/callback histories replayed on real handles and validated against the handle monitor",
+    technique="TLA+ model of the triple-buffer command channel at atomic-access granularity (TLC, all interleavings) + two-thread stress recording validated by TLC against the same interval monitor + TLC-enumerated write/callback histories replayed on real handles and validated against the handle monitor + TLA+ model of the streaming-seek protocol (StreamSeek.tla: decoder thread, frame ring, reached_end, seek slot; safety + liveness, two failing designs as witnesses) bound by the late-seek / slow-decoder sessions of scene T",
     text="The command channel every handle uses is model-checked for all interleavings of writer and reader steps (two-word values; exactly-once, newest-wins, not-lost, not-torn as an interval/linearizability monitor); the same monitor validates histories recorded from two real threads on the real primitive. At handle level TLC enumerates all histories of bursts of writes to several keys and callbacks up to a depth bound; the harness executes them on real handles and decodes the value in force after each callback (exact dB levels, states, clock ticking, modulator-linked volume, seek displacement). Seek bursts include a last seek_by of zero.",
     note="Sub-operation interleavings inside triple_buffer cannot be forced on the real code (dependency without yield points): they are covered by the model and sampled by the two-thread stress run. Handle-level histories are unraced (commands are written between callbacks). Not every setter of every handle type is decoded: covered keys are main/sub-track/static/streaming volume, sound and track pause/resume, clock start/pause, tweener set, static seek_to/seek_by; different command kinds acting on the same observable are not mixed within one inter-callback window (order unspecified).")
 
@@ -39,6 +39,23 @@ def model_check(res, tier):
     for wn in ("W_Overwrite", "W_Race"):
         c = write_cfg("Commands_%s.cfg" % wn, "SPECIFICATION Spec\nCONSTANTS\n  MaxW = 3\n  MaxR = 3\nVIEW View\nINVARIANT %s\nCHECK_DEADLOCK FALSE\n" % wn)
         tlc_check("MC_Commands.tla", c, workers=4, timeout=600, expect_violation=wn, tag="c07w")
+
+    # who serves a seek on a streaming sound, and when may the sound stop (StreamSeek.tla): the code's protocol between decoder thread,
+    # frame ring, reached_end and the seek slot - every interleaving of decoder passes, output frames and seek writes; the two designs
+    # that must fail (thread ends with the last frame = kira before the D27 repair; reached_end left set after a late seek) do fail
+    ss = "SPECIFICATION %s\nCONSTANTS\n  Len0 = %d\n  R = %d\n  Xs = {%s}\n  MaxSeeks = %d\n  Variant = \"%s\"\n%s\nCHECK_DEADLOCK FALSE\n"
+    big = (8, 3, "1, 4, 6", 3) if tier == "quick" else (10, 4, "1, 4, 7, 9", 4)
+    st = tlc_check("StreamSeek.tla", write_cfg("StreamSeek.cfg", ss % (("FairSpec",) + big + ("code", "INVARIANTS TypeOK PropertyHolds SeeksHaveAReader\nPROPERTIES SeekServed ThreadEnds"))),
+                   workers=4, timeout=1800, tag="c07ss")
+    if st["violated"]:
+        res.drift.append({"model": "StreamSeek", "violated": st["violated"]})
+    res.add_mc("StreamSeek (late seeks: reader, reached_end, stop) len=%d ring=%d seeks<=%d" % (big[0], big[1], big[3]), st)
+    for var, inv in (("exit_at_end", "SeeksHaveAReader"), ("keep_flag", "PropertyHolds")):
+        tlc_check("StreamSeek.tla", write_cfg("StreamSeek_%s.cfg" % var, ss % ("Spec", 6, 3, "1, 4", 2, var, "INVARIANTS " + inv)),
+                  workers=2, timeout=600, expect_violation=inv, tag="c07ss")
+    for wn in ("W_LateSeekServed", "W_StopsAfterLateSeek"):
+        tlc_check("StreamSeek.tla", write_cfg("StreamSeek_%s.cfg" % wn, ss % ("Spec", 6, 3, "1, 4", 2, "code", "INVARIANT " + wn)),
+                  workers=2, timeout=600, expect_violation=wn, tag="c07ss")
 
 
 def generate(tier, rng):
